@@ -325,7 +325,7 @@ func runC09_8(c *core.Ctx) {
 					continue
 				}
 				cf := flow.CalleeFunc(f.Info, call)
-				if cf == nil || cf.Pkg() == nil || cf.Pkg().Path() != "io" || cf.Name() != "Read" {
+				if cf == nil || cf.Pkg() == nil || cf.Pkg().Path() != "io" || nameOf(cf) != "Read" {
 					continue
 				}
 				var low, high ast.Expr
@@ -801,7 +801,7 @@ func runC09_12(c *core.Ctx) {
 				return true
 			}
 			cf := flow.CalleeFunc(f.Info, call)
-			if cf == nil || cf.Pkg() == nil || cf.Pkg().Path() != "io" || (cf.Name() != "Read" && cf.Name() != "Write") {
+			if cf == nil || cf.Pkg() == nil || cf.Pkg().Path() != "io" || (nameOf(cf) != "Read" && nameOf(cf) != "Write") {
 				return true
 			}
 			if se, ok := ast.Unparen(call.Args[0]).(*ast.SliceExpr); !ok || flow.FieldOf(f.Info, se.X) != a.buf {
@@ -826,10 +826,10 @@ func runC09_12(c *core.Ctx) {
 			)
 			counted := taintedBy(f.Info, f.Decl.Body, s.cnt)
 			var namedCount, namedErr types.Object
-			if v := sig.Results().At(0); v.Name() != "" {
+			if v := sig.Results().At(0); nameOf(v) != "" {
 				namedCount = v
 			}
-			if v := sig.Results().At(1); v.Name() != "" {
+			if v := sig.Results().At(1); nameOf(v) != "" {
 				namedErr = v
 			}
 			isSite := func(n ast.Node) bool {
